@@ -146,7 +146,7 @@ def main() -> int:
         (rng.sample(ps['exhaustive'], min(len(ps['exhaustive']), 150)) if tier == 'quick' else ps['exhaustive'][::3])
     lay_names = [l.name for l in LAYOUTS]
     if tier == 'quick':
-        lay_names = ['plain', 'tight', 'wide', 'zero_index', 'wrapped', 'commented', 'tabs', 'wrapped_calls', 'wrapped_calls_commented']
+        lay_names = ['plain', 'tight', 'wide', 'zero_index', 'wrapped', 'commented', 'tabs', 'wrapped_calls', 'wrapped_calls_commented', 'glued_comment', 'wrapped_index']
     from gram.enum import fork_nodes
     items = [(p, ln, None) for p in pool for ln in lay_names
              if not (tier == 'quick' and fork_nodes(p) > 1 and ln not in ('plain', 'wide', 'wrapped'))]
